@@ -20,7 +20,7 @@ type poolGen struct {
 
 func newPoolGen(r *core.Rand, world int) *poolGen {
 	s := &scenario{world: world, src: "stub", minW: 0, maxW: 4000000 - 4000, prioSize: 0, minFree: 1000}
-	s.now = worldT0 + worldSpacing*int64(worldBlocks) + 1200
+	s.now = worldT0 + spacing(world)*int64(worldBlocks) + 1200
 	pg := &poolGen{s: s, w: getWorld(world), r: r, used: map[int]bool{}, fpks: map[int64]bool{}}
 	s.addr = r.Bool()
 	s.upd = r.Bool()
@@ -361,6 +361,7 @@ func (P) Generate(g *core.Gen) {
 	genMaturityEdge(g)
 	genConsensusWeight(g)
 	genSeqLocks(g)
+	genRetarget(g)
 }
 
 func genIndependent(g *core.Gen) {
@@ -632,7 +633,7 @@ func genRealPool(g *core.Gen) {
 		if g.R.Chance(1, 3) { // the chain grows after the pool was filled (tip moves forward only)
 			pg.s.fwd = 1 + g.R.Intn(3)
 			pg.s.pb = true
-			pg.s.now += worldSpacing * int64(pg.s.fwd)
+			pg.s.now += spacing(pg.s.world) * int64(pg.s.fwd)
 		}
 		s := pg.finish(false)
 		if !keysDistinct(s) {
@@ -1210,5 +1211,40 @@ func genSeqLocks(g *core.Gen) {
 			continue
 		}
 		g.Case("seq-locks", len(s.txs) > 0, s.line())
+	}
+}
+
+// genRetarget: a testnet-style chain (retarget every 10 blocks, minimum
+// difficulty allowed 20 minutes after the tip) whose difficulty is above the
+// minimum.  The template is made at one clock, refreshed with UpdateBlockTime
+// at another; both sit at -1 / 0 / +1 s (and further away) of the
+// tip + 20 min boundary where the required bits drop to the minimum.  The
+// refreshed header must carry the bits consensus requires for ITS timestamp.
+func genRetarget(g *core.Gen) {
+	offs := []int64{10, 600, 1199, 1200, 1201, 1500}
+	for c := 0; c < g.N(24, 150); c++ {
+		pg := newPoolGen(g.R, 2)
+		tip := worldT0 + spacing(2)*int64(worldBlocks)
+		d1 := offs[g.R.Intn(len(offs))]
+		d2 := 1200 + g.R.Pick(-1, 0, 1, 300, -600)
+		if c%4 == 0 {
+			d2 = d1 + g.R.Pick(0, 1, 31)
+		}
+		if d2 < d1 {
+			d2 = d1
+		}
+		pg.s.now, pg.s.unow = tip+d1, tip+d2
+		pg.s.pb = true
+		pg.s.upd = c%3 != 0
+		pg.randomPool(poolOpts{n: g.R.Intn(5), childProb: 30, maxFee: 50000, anyKind: true})
+		s := pg.finish(true)
+		params := makeParams(2)
+		s.dp = diffParams(params)
+		var parts []string
+		for h := worldBlocks; h >= 0; h-- {
+			parts = append(parts, fmt.Sprintf("%d:%08x", pg.w.times[h], pg.w.bits[h]))
+		}
+		s.hist = joinStrings(parts, ",")
+		g.Case("retarget", true, s.line())
 	}
 }
